@@ -119,8 +119,14 @@ func c03GenOp(rng *rand.Rand, t, P int, multi, mixed bool) vfOp {
 	case x < 70:
 		// shared pre-opened files: slot 0 = /a, slot 1 = /b
 		return vfOp{K: "readat", T: t, H: rng.IntN(2), Off: int64(rng.IntN(3 * P)), N: ln()}
-	case x < 78:
+	case x < 75:
 		return vfOp{K: "fstat", T: t, H: rng.IntN(2)}
+	case x < 77:
+		// (on the task's own file) the peer advertises fsync but refuses it for the files of odd-numbered tasks
+		// ("unsupported"): an answer about one request, not about the session
+		return vfOp{K: "sync", T: t, H: 10 + t}
+	case x < 78:
+		return vfOp{K: "hasext", T: t, P: "fsync@openssh.com"}
 	case x < 82:
 		return vfOp{K: "readdir", T: t, P: "/dir"}
 	case x < 86:
@@ -151,6 +157,8 @@ func c03Exec(r *vfRun) {
 	srv.files["/b"] = append([]byte(nil), contentB...)
 	dirNames := []string{"e1", "e2", "e3", "e4", "e5", "e6", "e7"}
 	srv.addDir("/dir", dirNames...)
+	srv.exts = [][2]string{{"fsync@openssh.com", "1"}}
+	srv.noSync = func(p string) bool { return len(p) > 2 && p[:2] == "/w" && (p[len(p)-1]-'0')%2 == 1 }
 	vfClientSites(sim, sc.cfg("sites", 7))
 	P, M := int(sc.cfg("P", 4)), int(sc.cfg("M", 2))
 	c, err := vfStartClient(sim, srv.c2s, srv.s2c, MaxPacketUnchecked(P), MaxConcurrentRequestsPerFile(M),
@@ -314,6 +322,19 @@ func c03Check(srv *vfScriptServer, res *vfOpResult, a, b []byte, own *[]byte, di
 		}
 		if res.Size != int64(at.Size) || res.Mtime != int64(at.Mtime) || uint32(res.Mode.Perm()) != at.Perm&0o777 {
 			return fmt.Sprintf("got size=%d mtime=%d perm=%o, the answer to this request is size=%d mtime=%d perm=%o", res.Size, res.Mtime, res.Mode.Perm(), at.Size, at.Mtime, at.Perm&0o777)
+		}
+	case "sync":
+		var se *StatusError
+		if (op.H-10)%2 == 1 {
+			if !errors.As(res.Err, &se) || se.Code != sshFxOPUnsupported {
+				return fmt.Sprintf("Sync of /w%d returned %v; the answer to this request is SSH_FX_OP_UNSUPPORTED", op.H-10, res.Err)
+			}
+		} else if res.Err != nil {
+			return fmt.Sprintf("Sync of /w%d returned %v; the answer to this request is OK", op.H-10, res.Err)
+		}
+	case "hasext":
+		if res.Str != "1" {
+			return fmt.Sprintf("HasExtension(fsync) = %q, the peer advertised it with data \"1\"", res.Str)
 		}
 	case "fstat":
 		if res.Err != nil {
